@@ -159,4 +159,21 @@ def AttrsRebuild (R : List (String × String) → List (String × String) → Pr
     (rebuildAttrs er el bs (as.map AttrVal.initState) d).1.next = d.next ∧
     (rebuildAttrs er el bs (as.map AttrVal.initState) d).2 = bs.map AttrVal.initState
 
+mutual
+/-- `P as bs` holds for the attribute values of every element that `rebuild b` RETAINS from the
+state of `a` (same position, same `Either` branch, same `Option` case, same erased type, the common
+prefix of two `Vec`s); replaced branches impose nothing -/
+def PairEl (P : List AttrVal → List AttrVal → Prop) : View → View → Prop
+  | .elem _ as c, .elem _ bs c' => P as bs ∧ PairEl P c c'
+  | .tuple vs, .tuple ws => PairElList P vs ws
+  | .osome v, .osome w => PairEl P v w
+  | .either _ i v, .either _ j w => i = j → PairEl P v w
+  | .vec vs, .vec ws => PairElList P vs ws
+  | .any t v, .any t' w => Ty.beq t' t = true → PairEl P v w
+  | _, _ => True
+def PairElList (P : List AttrVal → List AttrVal → Prop) : List View → List View → Prop
+  | v :: vs, w :: ws => PairEl P v w ∧ PairElList P vs ws
+  | _, _ => True
+end
+
 end Leptos.View
